@@ -47,6 +47,22 @@ CHECKS = {
         technique="Lean 4 proof (checker table vs lowering table, all type terms) + exhaustive operator-cell correspondence through the real compiler",
         ref="§5 C02",
     ),
+    "C03": dict(
+        text=("Partial. Proof (Lean 4) for the modelled pieces of the front end: the scanner returns on every source text in every mode "
+              "(scanner_returns = scan_total of C13) and yields at most |source|+1 tokens (token_count_bounded, from the partition "
+              "theorem), the unifier adds at most one binding per step, the initialisation walk only visits modules bounded by its "
+              "start (init_walk_bounded). The recursive-descent parser, resolver and type checker have NO Lean model; for them the "
+              "check is a search: every input is parsed in a sacrificial harness process (panics answered by the harness, fatal "
+              "errors and hangs detected by the driver, the culprit re-run alone with time and memory limits): all token strings up to "
+              "length 2 (quick) / 3 (thorough, 16k) over a 25-symbol alphabet of lexical classes, token and byte mutants (incl. "
+              "invalid UTF-8) of generated programs and Duden sources, deep nestings, import arrangements (missing files, "
+              "directories, cycles 1-4, self-import, broken imported modules, odd paths, empty modules), plus a corpus of the inputs "
+              "that crashed before their repair. Three front-end crashes found this way were repaired (fix: commits)."),
+        note=TB + "For parser/resolver/typechecker the evidence is the crash probe only — bounded search, stated as such; unbounded memory "
+             "growth is detected only through the per-process memory limit.",
+        technique="Lean 4 proof for scanner/unifier/import walk + crash probe of the real front end in sacrificial processes (search, not proof, for the parser)",
+        ref="§5 C03",
+    ),
     "C04": dict(
         text=("Proof (Lean 4) about DDP.Spec.checkProgram, the statement of the static rules for the core language (typeOf over all "
               "expression forms with the operand rules of typechecker.go, scopes, loop depth, final return): rule by rule, what the "
@@ -99,6 +115,24 @@ CHECKS = {
              "covered by compiled programs only (no theorem).",
         technique="Lean 4 proof over regenerated bounds predicates (BitVec 64) + compiled-program correspondence",
         ref="§5 C06",
+    ),
+    "C07": dict(
+        text=("Proof (Lean 4): with `deliver` = the wrapper parser.Parse puts around the error handler, the module is faulty exactly when "
+              "an error-level diagnostic was delivered (faulty_iff_error, by induction over any sequence of diagnostics), warnings "
+              "alone never fail (warnings_dont_fail), the order of delivery is irrelevant (faulty_perm), the exit status is non-zero "
+              "iff an error was delivered and then no artefact is left, and without errors there is one (exit_iff_error, "
+              "no_artefact_on_failure, artefact_without_errors); with `render` = the indexing of ddperror.MakeAdvancedHandler as a "
+              "partial function over the lines of the file, EVERY range that lies inside the text (inText: both ends positions of the "
+              "text, start not after end) is rendered without an out-of-range slice (render_total), and the hypothesis is needed "
+              "(witness). Tie: on well-formed programs, the same with a `...` statement (warning only), AST/text mutants, an error "
+              "inside an imported module and malformed inputs the real front end is monitored: Faulty == some delivered diagnostic "
+              "has level error (level constants regenerated from ddperror/error.go), every range names a file of the compilation and "
+              "satisfies inText (the monitor is compared with the Lean predicate on every diagnostic), the real MakeAdvancedHandler "
+              "runs on every diagnostic without panic, kddp's exit status and object file agree with the flag."),
+        note=TB + "The ~110 places that assemble ranges from neighbouring tokens are monitored, not proved (partial); handler swaps "
+             "(EvaluateSilent, speculative parsing) are not modelled as a state machine.",
+        technique="Lean 4 proof about the failure flag and the renderer's indexing + monitors on the real front end, renderer and kddp exit status",
+        ref="§5 C07",
     ),
     "C08": dict(
         text=("Proof (Lean 4) about the store of the L2 evaluator (holders = bindings to a location + path): a write through one holder never "
